@@ -80,7 +80,7 @@ def replay(ctx, path):
 def run(ctx):
     T = ctx.thorough()
     count = 60 if T else 19
-    ctx.bounds = {'programs': '6 fixed types mirroring test_suite/tests/derive.rs + %d seeded generated type definitions (VERIF_SEED)' % count, 'values': 'every value of each type (kani::any), all integer widths full range, compact across all size classes',
+    ctx.bounds = {'programs': '7 fixed types mirroring test_suite/tests/derive.rs + %d seeded generated type definitions (VERIF_SEED)' % count, 'values': 'every value of each type (kani::any), all integer widths full range, compact across all size classes',
                   'encoded size': '<= 96 bytes', 'nesting': 'depth <= 2; no recursive types'}
     ctx.outside = ['the program dimension is SAMPLED (seeded), not solver-decided', '#[codec(encoded_as)] (not understood by the scale-info derive; not generated)', 'recursive types (Box<Self>), Vec/String members (no kani::Arbitrary; covered for built-ins under C04)',
                    'paths and docs are not part of this property']
